@@ -75,9 +75,19 @@ fn main() {
         out.rec(&format!("syl chr {} => {}", cp, opt(Bopomofo::try_from(ch).ok().map(|x| x as u16))));
     }
 
-    // ---- every code: accessors, spelling, removers, pop, C conversion
-    for c in 1..=65535u16 {
-        let s = syl(c);
+    // ---- every 16-bit value: is it a syllable (try_from), and if so accessors, spelling, removers, pop, C conversion;
+    //      oracle S (C13, F47): an accepted value converts back from its components and from its spelling
+    let mut valid: Vec<u16> = vec![];
+    let (mut n_roundtrip, mut n_tone1) = (0u64, 0u64);
+    for c in 0..=65535u16 {
+        let s = match Syllable::try_from(c) {
+            Ok(s) => s,
+            Err(_) => {
+                out.rec(&format!("syl code {} => err {} {}", c, p2b(c, 16), p2b(c, 0)));
+                continue;
+            }
+        };
+        valid.push(c);
         let text = s.to_string();
         let mut rm = vec![];
         for k in 0..4 {
@@ -88,10 +98,16 @@ fn main() {
                 2 => t.remove_rime(),
                 _ => t.remove_tone(),
             };
+            if Syllable::try_from(t.to_u16()).ok() != Some(t) {
+                out.oracle_fail("C13", "new", &format!("remove kind {} on {:#06x} gives {:#06x}, which try_from rejects", k, c, t.to_u16()));
+            }
             rm.push(t.to_u16().to_string());
         }
         let mut t = s;
         let popped = t.pop();
+        if Syllable::try_from(t.to_u16()).ok() != Some(t) {
+            out.oracle_fail("C13", "new", &format!("pop on {:#06x} gives {:#06x}, which try_from rejects", c, t.to_u16()));
+        }
         let blen = text.len();
         out.rec(&format!(
             "syl code {} => {} {} {} {} {} {} {} {} {} {} {} {}",
@@ -99,16 +115,41 @@ fn main() {
             s.is_empty() as u8, rm.join(" "), d(popped), t.to_u16(),
             p2b(c, blen + 1), p2b(c, blen), p2b(c, 0)
         ));
-    }
-    out.rec(&format!("syl code 0 => {}", match Syllable::try_from(0u16) { Ok(_) => "ok".to_string(), Err(_) => "err".to_string() }));
-    out.stat("codes", 65536);
-
-    // ---- update: every code (thorough) / every 7th code + all codes < 0x3000 (quick) x 42 symbols
-    let mut n_upd = 0u64;
-    for c in 1..=65535u16 {
-        if !thorough && c >= 0x3000 && c % 7 != 0 {
-            continue;
+        // the known class, computed from the bit layout alone: all fields inside their tables, tone value 5 (F18)
+        let tone1 = c & 0x8000 == 0 && (c >> 9) & 63 <= 21 && (c >> 7) & 3 <= 3 && (c >> 3) & 15 <= 13 && c & 7 == 5;
+        let class = if tone1 { "F18-tone1" } else { "new" };
+        let mut ok = true;
+        if s.to_u16() != c {
+            out.oracle_fail("C13", "new", &format!("try_from({:#06x}) hands out the syllable {:#06x}", c, s.to_u16()));
+            ok = false;
         }
+        let mut b = Some(Syllable::builder());
+        for x in [s.initial(), s.medial(), s.rime(), s.tone()].into_iter().flatten() {
+            b = b.and_then(|b| b.insert(x).ok());
+        }
+        let rebuilt = b.map(|b| b.build());
+        if rebuilt != Some(s) {
+            out.oracle_fail("C13", class, &format!("try_from accepts {:#06x} but its components ({} {} {} {}) build {}", c,
+                d(s.initial()), d(s.medial()), d(s.rime()), d(s.tone()),
+                rebuilt.map(|r| format!("{:#06x}", r.to_u16())).unwrap_or("an error".into())));
+            ok = false;
+        }
+        let back = Syllable::from_str(&text).ok();
+        if back != Some(s) {
+            out.oracle_fail("C13", class, &format!("try_from accepts {:#06x} but its spelling {} parses to {}", c, hx(&text),
+                back.map(|r| format!("{:#06x}", r.to_u16())).unwrap_or("an error".into())));
+            ok = false;
+        }
+        if ok { n_roundtrip += 1 } else if tone1 { n_tone1 += 1 }
+    }
+    out.stat("codes", 65536);
+    out.stat("codes_accepted", valid.len());
+    out.stat("codes_accepted_roundtrip", n_roundtrip);
+    out.stat("codes_accepted_tone1_F18", n_tone1);
+
+    // ---- update: every syllable value x 42 symbols (both tiers); the result must again be a syllable value
+    let mut n_upd = 0u64;
+    for &c in &valid {
         let mut res = vec![];
         for b in ALL {
             let mut t = syl(c);
@@ -116,6 +157,11 @@ fn main() {
                 t.update(b);
                 t.to_u16()
             });
+            if let Ok(v) = r {
+                if Syllable::try_from(v).is_err() {
+                    out.oracle_fail("C13", "new", &format!("update({}) on {:#06x} gives {:#06x}, which try_from rejects", b as u16, c, v));
+                }
+            }
             res.push(match r { Ok(v) => v.to_string(), Err(_) => "!".to_string() });
             n_upd += 1;
         }
@@ -145,8 +191,8 @@ fn main() {
                 let class = if s.contains('ˉ') { "F18-tone1" } else { "new" };
                 out.oracle_fail("C13", class, &format!("parse({})={} spells back as {}", hx(&s), v.to_u16(), hx(&v.to_string())));
             }
-            if v.to_u16() == 0 {
-                out.oracle_fail("C13", "new", "zero code");
+            if Syllable::try_from(v.to_u16()).ok() != Some(v) {
+                out.oracle_fail("C13", "new", &format!("parse({}) = {:#06x}, which try_from rejects", hx(&s), v.to_u16()));
             }
             true
         } else {
@@ -266,29 +312,33 @@ fn main() {
     }
     out.stat("composable", composable.len());
 
-    // ---- starts_with: shift class of every code by single-bit probes (model compares the mask) ...
-    for p in 1..=65535u16 {
+    // ---- starts_with: shift class of every syllable value by single-bit probes (model compares the mask; a probe that
+    //      is not a syllable value cannot be asked) ...
+    for &p in &valid {
         let ps = syl(p);
         let mut mask = 0u32;
         for j in 0..16 {
             let q = p ^ (1 << j);
-            if q != 0 && syl(q).starts_with(ps) {
-                mask |= 1 << j;
+            if let Ok(qs) = Syllable::try_from(q) {
+                if qs.starts_with(ps) {
+                    mask |= 1 << j;
+                }
             }
         }
         out.rec(&format!("syl swmask {} => {}", p, mask));
     }
     // ... random pairs ...
+    let pick = |rng: &mut Rng| valid[rng.below(valid.len() as u64) as usize];
     for _ in 0..(if thorough { 500_000 } else { 50_000 }) {
-        let a = 1 + rng.below(65535) as u16;
-        let mut b = 1 + rng.below(65535) as u16;
+        let a = pick(&mut rng);
+        let mut b = pick(&mut rng);
         if rng.chance(1, 2) {
             // a near-prefix: clear some low fields of a
             b = a & [0xFFFF, 0xFFF8, 0xFF80, 0xFE00][rng.below(4) as usize];
             if rng.chance(1, 4) {
                 b ^= 1 << rng.below(16);
             }
-            if b == 0 {
+            if Syllable::try_from(b).is_err() {
                 b = a;
             }
         }
